@@ -48,7 +48,7 @@ import (
 	clientv3 "go.etcd.io/etcd/client/v3"
 )
 
-const c22Rule = "topics with hostile names (path separators, '.'/'..' segments, doubled/leading/trailing slashes, names equal to another topic's partition directory or etcd sub-path, ':' and '/offsets/' joins, %-escapes, blanks, unicode, control characters, case variants, 249/250/300-character names, empty) are created or auto-created through the real handler (CreateTopics, Produce, Metadata, Fetch, ListOffsets); acceptance = the name is listed by a Metadata(all) request afterwards. Every accepted topic gets uniquely tagged produce batches on partitions 0 and 1, an OffsetCommit (joined group through the handler, falling back to the store call the coordinator makes), an AlterConfigs, sometimes a DeleteTopics, with broker restarts (new handler over the same object store and metadata store) in between. Oracle, for every pair of accepted distinct names: (1) the S3 keys their operations wrote are disjoint and so are the partition directories they list and write into; (2) no key written by one lies under a partition directory (list prefix / directory of a written key) of the other; (3) likewise for the etcd keys touched (cluster-level snapshot key and per-group keys excluded); (4) after every single operation the observable state of every live topic (ListOffsets latest, full Fetch read-back of both partitions by record tag, OffsetFetch, DescribeConfigs) equals what its own operations imply, and a deviation is reported only if a control run of that topic's operations alone shows none; (5) an accepted name that contains '/' or a '.'/'..' segment is itself a violation (the statement demands rejection). A rejected name is always fine. distinct = (store kind, name shapes, creation paths); non-trivial = at least two accepted topics whose full workload ran and whose keys were compared"
+const c22Rule = "topics with hostile names (path separators, '.'/'..' segments, doubled/leading/trailing slashes, names equal to another topic's partition directory or etcd sub-path, ':' and '/offsets/' joins, %-escapes, blanks, unicode, control characters, case variants, 249/250/300-character names, empty) are created or auto-created through the real handler (CreateTopics, Produce, Metadata, Fetch, ListOffsets); acceptance = the name is listed by a Metadata(all) request afterwards with the expected partition count. A quarter of the generated InMemoryStore cases, half of the generated EtcdStore cases and four fixed families per store are DIGIT FAMILIES of legal names: one base name x with x+digits, x+sep+digits, digits+x, digits+sep+x, x+sep, x+digits+digits (sep one of - . _), created with 1-3 or 11-25 partitions (auto-created ones get the broker's auto-create count, 11-25 in these cases), and their workload partitions (up to 4 per topic) are chosen so that name and partition number of two DIFFERENT topics read the same when written next to each other (\"t1\"+\"0\" = \"t\"+\"10\", \"1\"+\"1a\" = \"11\"+\"a\") or so that one topic's name reads like another topic's partition (\"ev-1\" / partition 1 of \"ev\"); both pairs are used on the same broker handler, first-touch order varying with the interleaving and the restarts. Every accepted topic gets uniquely tagged produce batches on each of its workload partitions (0 and 1 outside the families), an OffsetCommit per workload partition (joined group through the handler, falling back to the store call the coordinator makes), an AlterConfigs, sometimes a DeleteTopics, with broker restarts (new handler over the same object store and metadata store) in between. Oracle, for every pair of accepted distinct names: (1) the S3 keys their operations wrote are disjoint and so are the partition directories they list and write into; (2) no key written by one lies under a partition directory (list prefix / directory of a written key) of the other; (3) likewise for the etcd keys touched (cluster-level snapshot key and per-group keys excluded); (4) after every single operation the observable state of every live topic (ListOffsets latest and full Fetch read-back by record tag of every workload partition, OffsetFetch, DescribeConfigs) equals what its own operations imply, and a deviation is reported only if a control run of that topic's operations alone shows none; (5) an accepted name that contains '/' or a '.'/'..' segment is itself a violation (the statement demands rejection). A rejected name is always fine. distinct = (store kind, name shapes, creation paths); non-trivial = at least two accepted topics whose full workload ran and whose keys were compared"
 
 var c22Broker = protocol.MetadataBroker{NodeID: 1, Host: "127.0.0.1", Port: 9092}
 
@@ -823,17 +823,17 @@ type c22Member struct {
 }
 
 type c22World struct {
-	kind    string
-	s3      *vS3
-	etcd    *c22Etcd
-	store   metadata.Store
-	h       *handler
-	inst    *instance
-	cacheOn bool
-	corr    int32
-	suspect string // non-empty: the environment misbehaved (slow / failing etcd); nothing of this run is judged
-	members map[string]c22Member
-	nInst   int
+	kind            string
+	s3              *vS3
+	etcd            *c22Etcd
+	store           metadata.Store
+	h               *handler
+	inst            *instance
+	cacheOn         bool
+	corr            int32
+	suspect         string // non-empty: the environment misbehaved (slow / failing etcd); nothing of this run is judged
+	members         map[string]c22Member
+	nInst           int
 	fallbackCommits int
 	autoParts       int32 // partition count of auto-created topics
 }
